@@ -12,7 +12,16 @@ package main
 //   * the shape of the refresh-token strings the storage hands out: short ids (never decrypt), opaque base64url blobs (always decrypt
 //     under AES-CFB, to garbage), blobs that decrypt to `x:y` (`rt-shape-*`),
 //   * the issuer: static, or derived from the request (op.IssuerFromHost / IssuerFromForwardedOrHost) with 2-3 virtual issuers on ONE
-//     provider; tokens of issuer A are presented at issuer B and vice versa, in both orders (`cross-issuer-*`).
+//     provider; tokens of issuer A are presented at issuer B and vice versa, in both orders (`cross-issuer-*`),
+//   * TIME: the lifetimes the storage gives its access / refresh tokens (`ttl-*`: default 5 min / 5 h; `past`: the stored expiration is
+//     already behind the clock when the token is handed out; `short`: 0.3-0.9 s, with requests placed just before / at / just after the
+//     expiry edges - the storage's expiration, the second the exp claim of a JWT is cut to, and the same shifted by the client's clock
+//     skew (`edge-*`)), per-client op.Client.ClockSkew() != 0 (`skew-*`), and a storage that keeps no expiry index for self-contained
+//     (JWT) access tokens but leaves their expiry to the exp claim the framework writes and verifies (`storage-expiry-by-claim`),
+//   * storage FAULTS at a chosen call of a request of the history: TerminateSession / TerminateSessionFromRequest at end_session,
+//     RevokeToken / GetRefreshTokenInfo at revocation, TokenRequestByRefreshToken at the refresh grant and at token exchange
+//     (`fault-*`), on storages with and without the optional op.CanTerminateSessionFromRequest (`storage-termfromreq`); afterwards the
+//     tokens concerned are used again.
 
 import (
 	"bufio"
@@ -21,6 +30,7 @@ import (
 	"encoding/base64"
 	"encoding/hex"
 	"encoding/json"
+	"errors"
 	"fmt"
 	"io"
 	"log/slog"
@@ -95,6 +105,20 @@ func (s *c08Store) RevokeToken(ctx context.Context, tokenOrID, userID, clientID 
 	return s.Storage.RevokeToken(ctx, s.inner(tokenOrID), userID, clientID)
 }
 
+// c08StoreTerm: the same storage, additionally implementing the optional op.CanTerminateSessionFromRequest
+type c08StoreTerm struct {
+	*c08Store
+	op.CanTerminateSessionFromRequest
+}
+
+// c08Opts: the storage-side freedoms of one history
+type c08Opts struct {
+	attl, rttl    time.Duration // lifetimes the storage gives access / refresh tokens (0: refstore defaults)
+	expiryByClaim bool          // refstore.Store.JWTExpiryByClaim
+	termFromReq   bool          // the storage implements op.CanTerminateSessionFromRequest
+	sigAlg        string        // the algorithm the provider signs its tokens with ("" = RS256, the verifiers' default)
+}
+
 // ---------------------------------------------------------------- the bed: one provider, possibly several virtual issuers
 
 type c08Bed struct {
@@ -104,13 +128,24 @@ type c08Bed struct {
 	hosts   []string // dynamic: the virtual hosts; static: [""]
 }
 
-func c08NewBed(router, issMode string, hosts []string, mint func(string) string) *c08Bed {
+func c08NewBed(router, issMode string, hosts []string, mint func(string) string, o c08Opts) *c08Bed {
 	key := hx.Keys()[0]
-	st := refstore.New(refstore.SigningKeySpec{Kid: "sig1", Alg: jose.SignatureAlgorithm(key.Algs[0]), Priv: key.Priv, Pub: key.Pub})
+	alg := key.Algs[0]
+	if o.sigAlg != "" {
+		alg = o.sigAlg
+	}
+	st := refstore.New(refstore.SigningKeySpec{Kid: "sig1", Alg: jose.SignatureAlgorithm(alg), Priv: key.Priv, Pub: key.Pub})
 	st.MultiTenant = issMode != "static" // request-derived issuers: the storage partitions its records by op.IssuerFromContext(ctx)
+	st.JWTExpiryByClaim = o.expiryByClaim
+	if o.attl != 0 {
+		st.AccessTTL = o.attl
+	}
+	if o.rttl != 0 {
+		st.RefreshTTL = o.rttl
+	}
 	base := st.With(refstore.Caps{TE: true})
 	ws := &c08Store{Storage: base, TokenExchangeStorage: base.(op.TokenExchangeStorage), in: map[string]string{}, out: map[string]string{}, mint: mint}
-	cfg := opbed.Config{Router: router, S256: true, Post: true, PrivateKeyJWT: true, Refresh: true, SignKey: key, SignAlg: key.Algs[0]}
+	cfg := opbed.Config{Router: router, S256: true, Post: true, PrivateKeyJWT: true, Refresh: true, SignKey: key, SignAlg: alg}
 	b := &opbed.Bed{Cfg: cfg, Store: st, Storage: ws, CryptoKey: sha256.Sum256([]byte("verif-crypto-key")), SignKey: key}
 	oc := &op.Config{CryptoKey: b.CryptoKey, DefaultLogoutRedirectURI: "https://op.example/logged-out", CodeMethodS256: true, AuthMethodPost: true,
 		AuthMethodPrivateKeyJWT: true, GrantTypeRefreshToken: true, SupportedClaims: op.DefaultSupportedClaims}
@@ -121,7 +156,18 @@ func c08NewBed(router, issMode string, hosts []string, mint func(string) string)
 	case "forwarded":
 		issuer = op.IssuerFromForwardedOrHost("")
 	}
-	p, err := op.NewProvider(oc, ws, issuer, op.WithLogger(c08Discard))
+	var storage op.Storage = ws
+	if o.termFromReq {
+		storage = &c08StoreTerm{c08Store: ws, CanTerminateSessionFromRequest: refstore.TermFromReqPart{S: st}}
+	}
+	b.Storage = storage
+	opts := []op.Option{op.WithLogger(c08Discard)}
+	if alg != "RS256" {
+		// a provider that signs with a non-default algorithm tells its verifiers so
+		opts = append(opts, op.WithAccessTokenVerifierOpts(op.WithSupportedAccessTokenSigningAlgorithms(alg)),
+			op.WithIDTokenHintVerifierOpts(op.WithSupportedIDTokenHintSigningAlgorithms(alg)))
+	}
+	p, err := op.NewProvider(oc, storage, issuer, opts...)
 	if err != nil {
 		panic(err)
 	}
@@ -159,6 +205,8 @@ type c08Token struct {
 	access, refresh, idToken   string // the strings handed out
 	rtLabel, grant, host       string
 	jwt                        bool
+	exp, rtExp                 time.Time     // the expirations the STORAGE gave the access / refresh token
+	skew                       time.Duration // ClockSkew() of the client
 	rtRevokedWithATHint        bool // the owner revoked the refresh token with token_type_hint=access_token
 	gone                       bool // replaced at the refresh grant
 }
@@ -260,8 +308,52 @@ func c08Stream(r *hx.Rand, tier string, n int, w *bufio.Writer) map[string]int {
 				return enc
 			}
 		}
-		cb = c08NewBed(router, issMode, hosts, mint)
+		// time and faults: what the storage does with lifetimes, who checks the expiry of a JWT access token, optional capability
+		ttl := "default"
+		var o c08Opts
+		switch k := r.Intn(40); {
+		case k == 0: // short lifetimes, requests placed around the expiry edges (real waiting, bounded per history)
+			ttl = "short"
+			o.attl = time.Duration(300+r.Intn(600)) * time.Millisecond
+			if r.Chance(40) {
+				o.rttl = time.Duration(500+r.Intn(600)) * time.Millisecond
+			}
+		case k <= 6: // the stored expiration is already in the past when the token is handed out
+			ttl = "past"
+			o.attl = -hx.Pick(r, time.Second, 2*time.Second, 20*time.Second, time.Hour)
+			if r.Chance(30) {
+				o.rttl = -30 * time.Second
+			}
+		}
+		o.expiryByClaim = r.Chance(60)
+		o.termFromReq = r.Chance(30)
+		o.sigAlg = hx.Pick(r, "", "", "", "", "", "RS512", "RS384", "PS256")
+		skewJWT := hx.Pick(r, 0, 0, time.Second, 2*time.Second, 30*time.Second, 30*time.Second, time.Hour, time.Hour)
+		skewWeb := hx.Pick(r, 0, 0, 0, 30*time.Second)
+		skewPub := hx.Pick(r, 0, 0, 5*time.Second)
+		cb = c08NewBed(router, issMode, hosts, mint, o)
 		bed := cb.Bed
+		stats["ttl-"+ttl]++
+		if o.rttl != 0 {
+			stats["ttl-refresh-"+ttl]++
+		}
+		if o.expiryByClaim {
+			stats["storage-expiry-by-claim"]++
+		}
+		if o.termFromReq {
+			stats["storage-termfromreq"]++
+		}
+		if o.sigAlg != "" {
+			stats["provider-sigalg-"+o.sigAlg]++
+		}
+		if skewJWT != 0 {
+			stats["skew-jwt-client-"+skewJWT.String()]++
+		}
+		if skewWeb != 0 || skewPub != 0 {
+			stats["skew-opaque-client"]++
+		}
+		sleepLeft := 900 * time.Millisecond
+		faultPct := 14
 		stats["issuer-mode-"+issMode]++
 		stats[fmt.Sprintf("issuers-%d", len(hosts))]++
 		stats["rt-shape-"+rtShape]++
@@ -269,7 +361,16 @@ func c08Stream(r *hx.Rand, tier string, n int, w *bufio.Writer) map[string]int {
 		cls := flowClients()
 		webjwt := opbed.WebClient("webjwt", "secret-jwt", "https://rp.example/cb")
 		webjwt.TokenType = op.AccessTokenTypeJWT
+		webjwt.Skew = skewJWT
 		cls = append(cls, &flowClient{c: webjwt})
+		for _, fc := range cls {
+			switch fc.c.ID {
+			case "web":
+				fc.c.Skew = skewWeb
+			case "pub":
+				fc.c.Skew = skewPub
+			}
+		}
 		for _, fc := range cls {
 			bed.Store.AddClient(fc.c)
 		}
@@ -280,13 +381,14 @@ func c08Stream(r *hx.Rand, tier string, n int, w *bufio.Writer) map[string]int {
 			byID[fc.c.ID] = fc
 		}
 		h0 = caseNo
-		l := line("reset").S("router", router).S("issuer", opbed.Issuer).S("issmode", issMode).L("hosts", hosts).S("rtshape", rtShape)
+		l := line("reset").S("router", router).S("issuer", opbed.Issuer).S("issmode", issMode).L("hosts", hosts).S("rtshape", rtShape).
+			S("ttl", ttl).S("sigalg", bed.Cfg.SignAlg).B("byclaim", o.expiryByClaim).B("termfromreq", o.termFromReq).S("default", "https://op.example/logged-out")
 		clientsKV(l, cls)
 		ksLinePub(l, "published", []pubKey{{k: bed.SignKey, kid: "sig1", use: "sig"}})
 		emit(l)
 		var toks []*c08Token
 		nGrant := 0
-		issuers := []*flowClient{byID["web"], byID["web"], byID["webjwt"], byID["web2"], byID["pub"]}
+		issuers := []*flowClient{byID["web"], byID["webjwt"], byID["webjwt"], byID["web2"], byID["pub"]}
 		if issMode != "static" {
 			issuers = []*flowClient{byID["web"], byID["webjwt"], byID["webjwt"], byID["web2"], byID["pub"]}
 		}
@@ -298,15 +400,34 @@ func c08Stream(r *hx.Rand, tier string, n int, w *bufio.Writer) map[string]int {
 			nGrant++
 			t := &c08Token{label: fmt.Sprintf("t%d", len(toks)+1), id: rec.ID, client: rec.ClientID, subject: rec.Subject, host: host, grant: fmt.Sprintf("g%d", nGrant),
 				access: tr.Str("access_token"), refresh: tr.Str("refresh_token"), idToken: tr.Str("id_token"), jwt: jwt}
+			t.exp = rec.Expiration
+			if fc := byID[t.client]; fc != nil {
+				t.skew = fc.c.Skew
+			}
+			il := line("issue")
 			if t.refresh != "" {
 				t.rtLabel = "r" + t.label[1:]
+				if rr := bed.Store.Refresh(cb.st.inner(t.refresh)); rr != nil {
+					t.rtExp = rr.Expiration
+					il.I("rtexp", t.rtExp.UnixNano())
+				}
 			}
 			if jwt {
 				sy.adopt(t.access, bed.SignKey)
+				// the exp claim the framework wrote into the token (observed), next to the expiration the storage gave it
+				if m, ok := opbed.DecodeJWT(t.access); ok {
+					if e, ok := m["exp"].(float64); ok {
+						il.I("jwtexp", int64(e))
+					}
+				}
+			}
+			if t.idToken != "" {
+				sy.adopt(t.idToken, bed.SignKey)
 			}
 			toks = append(toks, t)
-			emit(line("issue").S("label", t.label).S("id", t.id).S("client", t.client).S("sub", t.subject).L("aud", rec.Audience).B("jwt", t.jwt).
-				S("iss", cb.issuerOf(host)).S("rt", t.refresh).S("rtlabel", t.rtLabel).S("grant", t.grant))
+			emit(il.S("label", t.label).S("id", t.id).S("client", t.client).S("sub", t.subject).L("aud", rec.Audience).B("jwt", t.jwt).
+				S("iss", cb.issuerOf(host)).S("rt", t.refresh).S("rtlabel", t.rtLabel).S("grant", t.grant).
+				I("exp", t.exp.UnixNano()).I("skew", int64(t.skew)).I("now0", time.Now().UnixNano()))
 			return t
 		}
 		live := func() []*c08Token {
@@ -346,6 +467,52 @@ func c08Stream(r *hx.Rand, tier string, n int, w *bufio.Writer) map[string]int {
 			}
 		}
 
+		// a storage fault for the duration of ONE request: the named storage method fails; returns the cleanup
+		withFault := func(l *hx.Line, forced bool, methods ...string) (func(), bool) {
+			if !forced && !r.Chance(faultPct) {
+				return func() {}, false
+			}
+			m := methods[r.Intn(len(methods))]
+			bed.Store.FailMethod(m, errors.New("storage unavailable"))
+			l.S("fault", m)
+			stats["fault-"+m]++
+			return bed.Store.ClearFaults, true
+		}
+		// short lifetimes: wait until just before / at / just after one of the expiry edges of the token (bounded per history)
+		place := func(t *c08Token, refreshTok bool) {
+			if ttl != "short" || sleepLeft <= 0 || !r.Chance(70) {
+				return
+			}
+			exp := t.exp
+			if refreshTok {
+				exp = t.rtExp
+			}
+			if exp.IsZero() {
+				return
+			}
+			edges := []time.Time{exp}
+			if !refreshTok && t.jwt {
+				edges = append(edges, exp.Truncate(time.Second), exp.Add(t.skew).Truncate(time.Second))
+			}
+			e := edges[r.Intn(len(edges))]
+			off, name := -40*time.Millisecond, "before"
+			switch r.Intn(3) {
+			case 1:
+				off, name = 2*time.Millisecond, "at"
+			case 2:
+				off, name = 45*time.Millisecond, "after"
+			}
+			d := time.Until(e.Add(off))
+			if d <= 0 || d > sleepLeft {
+				stats["edge-out-of-reach"]++
+				return
+			}
+			time.Sleep(d)
+			sleepLeft -= d
+			stats["edge-"+name]++
+		}
+
+		var forceActor *c08Token // follow-ups: the token just revoked / logged out is presented as ACTOR of the next exchange
 		var opUserinfo, opIntrospect, opExchange, opRefresh func(t *c08Token, after string)
 		opUserinfo = func(t *c08Token, after string) {
 			presented, label, variant := c08Forge(r, sy, cb, t)
@@ -354,6 +521,7 @@ func c08Stream(r *hx.Rand, tier string, n int, w *bufio.Writer) map[string]int {
 			l := line("userinfo").S("tok", label).S("iss", cb.issuerOf(host)).B("cross", cross)
 			cb.presentedKV(l, sy, presented, false)
 			shapeKV(l, t)
+			place(t, false)
 			t0 := time.Now()
 			resp := do(bed.Get("/userinfo", nil, presented), host)
 			l.I("now0", t0.UnixNano()).I("now1", time.Now().UnixNano()).I("o.status", int64(resp.Status))
@@ -384,7 +552,10 @@ func c08Stream(r *hx.Rand, tier string, n int, w *bufio.Writer) map[string]int {
 			}
 			shapeKV(l, t)
 			auth := flowAuth(r, sy, l, caller, cls)
-			waitClearOfSecondEdge()
+			if ttl != "short" {
+				waitClearOfSecondEdge()
+			}
+			place(t, false)
 			t0 := time.Now()
 			resp := do(bed.Form("/oauth/introspect", url.Values{"token": {presented}}, auth), host)
 			l.I("now0", t0.UnixNano()).I("now1", time.Now().UnixNano()).I("o.status", int64(resp.Status))
@@ -431,9 +602,57 @@ func c08Stream(r *hx.Rand, tier string, n int, w *bufio.Writer) map[string]int {
 			l := line("exchange").S("tok", label).S("stype", stype).S("iss", cb.issuerOf(host)).B("cross", cross)
 			cb.presentedKV(l, sy, presented, asRefresh)
 			shapeKV(l, t)
+			// delegation: an ACTOR token next to the subject token - an opaque access token of this provider whose liveness is
+			// independent of the subject's (live / revoked / expired / session terminated / rotated away), half of the time a dead one
+			if forceActor != nil || r.Chance(35) {
+				a := forceActor
+				if a == nil {
+					var opaque, dead []*c08Token
+					for _, c := range toks {
+						if !c.jwt {
+							opaque = append(opaque, c)
+							if !bed.Store.TokenLive(c.id) {
+								dead = append(dead, c)
+							}
+						}
+					}
+					if len(dead) > 0 && r.Chance(50) {
+						a = dead[r.Intn(len(dead))]
+					} else if len(opaque) > 0 {
+						a = opaque[r.Intn(len(opaque))]
+					}
+				}
+				if forceActor == nil && r.Chance(12) {
+					// an actor token that is no token of this provider at all
+					f.Set("actor_token", "garbage-actor-token")
+					f.Set("actor_token_type", string(oidc.AccessTokenType))
+					l.S("atok", "").S("a.raw", "garbage-actor-token")
+					stats["exchange-actor-garbage"]++
+				} else if a != nil && !a.jwt {
+					if plain, err := crypto.DecryptAES(a.access, string(cb.CryptoKey[:])); err == nil {
+						f.Set("actor_token", a.access)
+						f.Set("actor_token_type", string(oidc.AccessTokenType))
+						l.S("atok", a.label).S("a.raw", c08Raw(a.access)).S("a.plain", plain)
+						state := "live"
+						if !bed.Store.TokenLive(a.id) {
+							state = "dead"
+						}
+						stats["exchange-actor-"+state]++
+						if a.host != host {
+							stats["exchange-actor-other-issuer"]++
+						}
+					}
+				}
+			}
+			clear := func() {}
+			if asRefresh {
+				clear, _ = withFault(l, false, "TokenRequestByRefreshToken")
+			}
+			place(t, asRefresh)
 			t0 := time.Now()
 			resp := do(bed.Form("/oauth/token", f, ownAuth(sy, byID["web"])), host)
 			l.I("now0", t0.UnixNano()).I("now1", time.Now().UnixNano())
+			clear()
 			l.I("o.status", int64(resp.Status)).B("o.success", resp.Status == 200 && resp.Str("access_token") != "").S("o.err", resp.OAuthError())
 			if resp.Panicked {
 				l.S("obs", "panic")
@@ -455,7 +674,12 @@ func c08Stream(r *hx.Rand, tier string, n int, w *bufio.Writer) map[string]int {
 			l := line("refresh").S("tok", t.rtLabel).S("iss", cb.issuerOf(host)).B("cross", cross)
 			cb.presentedKV(l, sy, t.refresh, true)
 			shapeKV(l, t)
+			clear, _ := withFault(l, false, "TokenRequestByRefreshToken")
+			place(t, true)
+			t0 := time.Now()
 			resp := do(bed.Form("/oauth/token", f, ownAuth(sy, owner)), host)
+			l.I("now0", t0.UnixNano()).I("now1", time.Now().UnixNano())
+			clear()
 			ok := resp.Status == 200 && resp.Str("access_token") != ""
 			rotated := ok && resp.Str("refresh_token") != "" && resp.Str("refresh_token") != t.refresh
 			l.I("o.status", int64(resp.Status)).B("o.success", ok).B("o.rotated", rotated).S("o.err", resp.OAuthError())
@@ -476,8 +700,19 @@ func c08Stream(r *hx.Rand, tier string, n int, w *bufio.Writer) map[string]int {
 			}
 		}
 
+		// the token (just revoked / expired / logged out) as ACTOR of a delegation exchange whose subject is another token
+		opExchangeAsActor := func(a *c08Token, after string) {
+			if a.jwt {
+				opExchange(a, after)
+				return
+			}
+			forceActor = a
+			opExchange(hx.Pick(r, live()...), after+"-as-actor")
+			forceActor = nil
+		}
+
 		nops := 5 + r.Intn(maxOps)
-		for o := 0; o < nops; o++ {
+		for oi := 0; oi < nops; oi++ {
 			kind := r.Intn(15)
 			if len(toks) == 0 {
 				kind = 0
@@ -517,7 +752,11 @@ func c08Stream(r *hx.Rand, tier string, n int, w *bufio.Writer) map[string]int {
 				stats["op-issue"]++
 			case kind == 2: // expire an access or a refresh token
 				t := hx.Pick(r, live()...)
-				if t.refresh != "" && r.Chance(40) {
+				if o.expiryByClaim && t.jwt && t.refresh == "" {
+					opUserinfo(t, "")
+					continue
+				}
+				if t.refresh != "" && (r.Chance(40) || (o.expiryByClaim && t.jwt)) {
 					bed.Store.ExpireToken(cb.st.inner(t.refresh))
 					emit(line("expire").S("label", t.rtLabel).S("id", t.refresh).S("kind", "rt"))
 					stats["op-expire-rt"]++
@@ -525,6 +764,16 @@ func c08Stream(r *hx.Rand, tier string, n int, w *bufio.Writer) map[string]int {
 					bed.Store.ExpireToken(t.id)
 					emit(line("expire").S("label", t.label).S("id", t.id).S("kind", "at"))
 					stats["op-expire-at"]++
+					if r.Chance(50) {
+						switch r.Intn(3) {
+						case 0:
+							opUserinfo(t, "expire")
+						case 1:
+							opIntrospect(t, "expire")
+						default:
+							opExchangeAsActor(t, "expire")
+						}
+					}
 				}
 			case kind <= 4:
 				opUserinfo(hx.Pick(r, live()...), "")
@@ -578,9 +827,13 @@ func c08Stream(r *hx.Rand, tier string, n int, w *bufio.Writer) map[string]int {
 				cb.presentedKV(l, sy, presented, asRefresh)
 				shapeKV(l, t)
 				auth := flowAuth(r, sy, l, caller, cls)
-				waitClearOfSecondEdge()
+				clear, faulted := withFault(l, false, "RevokeToken", "RevokeToken", "GetRefreshTokenInfo")
+				if ttl != "short" {
+					waitClearOfSecondEdge()
+				}
 				t0 := time.Now()
 				resp := do(bed.Form("/revoke", f, auth), host)
+				clear()
 				l.I("now0", t0.UnixNano()).I("now1", time.Now().UnixNano()).I("o.status", int64(resp.Status))
 				performed := false
 				for _, j := range resp.Journal {
@@ -589,6 +842,14 @@ func c08Stream(r *hx.Rand, tier string, n int, w *bufio.Writer) map[string]int {
 					}
 				}
 				l.B("o.performed", performed).L("journal", resp.Journal)
+				if label != "" {
+					// ground truth after the request: does the storage still hold the token as usable
+					if asRefresh {
+						l.B("o.effect", bed.Store.Refresh(cb.st.inner(t.refresh)) == nil)
+					} else {
+						l.B("o.effect", !bed.Store.TokenLive(t.id))
+					}
+				}
 				if resp.Panicked {
 					l.S("obs", "panic")
 				}
@@ -598,16 +859,18 @@ func c08Stream(r *hx.Rand, tier string, n int, w *bufio.Writer) map[string]int {
 					t.rtRevokedWithATHint = true
 				}
 				// afterwards: the refresh grant, token exchange with the refresh / access token as subject, userinfo, introspection
-				if r.Chance(75) {
+				if faulted || r.Chance(75) {
 					after := "revoke-" + what
 					for k := 1 + r.Intn(3); k > 0; k-- {
-						switch r.Intn(4) {
+						switch r.Intn(5) {
 						case 0:
 							opRefresh(t, after)
 						case 1:
 							opExchange(t, after)
 						case 2:
 							opUserinfo(t, after)
+						case 3:
+							opExchangeAsActor(t, after)
 						default:
 							opIntrospect(t, after)
 						}
@@ -628,27 +891,39 @@ func c08Stream(r *hx.Rand, tier string, n int, w *bufio.Writer) map[string]int {
 					now := time.Now().Unix()
 					claims := fmt.Sprintf(`{"iss":"%s","sub":"%s","aud":["%s"],"azp":"%s","exp":%d,"iat":%d,"auth_time":%d}`,
 						cb.issuerOf(t.host), t.subject, t.client, t.client, now-3600, now-7200, now-7200)
-					if exp, err := hx.Sign(bed.SignKey, bed.Cfg.SignAlg, "sig1", []byte(claims)); err == nil {
+					if exp, err := sy.sign(bed.SignKey, bed.Cfg.SignAlg, "sig1", []byte(claims)); err == nil {
 						hint = exp
 						stats["endsession-expired-hint"]++
 					}
 				}
-				resp := do(bed.Get("/end_session", url.Values{"id_token_hint": {hint}}, ""), t.host)
-				terminated := false
-				for _, j := range resp.Journal {
-					if strings.HasPrefix(j, "TerminateSession("+t.subject+","+t.client) {
-						terminated = true
-					}
+				el := line("endsession").S("sub", t.subject).S("client", t.client).S("iss", cb.issuerOf(t.host))
+				sy.tokenKV(el, hint)
+				// a storage fault at the call that ends the session (mostly the one this storage is asked through)
+				effective, other := "TerminateSession", "TerminateSessionFromRequest"
+				if o.termFromReq {
+					effective, other = other, effective
 				}
-				emit(line("endsession").S("sub", t.subject).S("client", t.client).S("iss", cb.issuerOf(t.host)).
+				clear, faulted := withFault(el, false, effective, effective, effective, effective, effective, other)
+				nTerm := len(bed.Store.Terminated)
+				t0 := time.Now()
+				resp := do(bed.Get("/end_session", url.Values{"id_token_hint": {hint}}, ""), t.host)
+				clear()
+				// terminated: the storage was asked to end THIS session and did so (a failed call has ended nothing)
+				terminated := false
+				if tt := bed.Store.Terminated; len(tt) > nTerm && tt[len(tt)-1] == [2]string{t.subject, t.client} {
+					terminated = true
+				}
+				emit(el.I("now0", t0.UnixNano()).I("now1", time.Now().UnixNano()).
 					I("o.status", int64(resp.Status)).B("o.terminated", terminated).L("journal", resp.Journal))
 				stats["op-endsession"]++
-				if r.Chance(60) {
-					switch r.Intn(3) {
+				if faulted || r.Chance(60) {
+					switch r.Intn(4) {
 					case 0:
 						opRefresh(t, "logout")
 					case 1:
 						opUserinfo(t, "logout")
+					case 2:
+						opExchangeAsActor(t, "logout")
 					default:
 						opExchange(t, "logout")
 					}
